@@ -19,7 +19,7 @@ func init() {
 		},
 		Quick: []ruleDef{
 			{"HND-AGREE", 15, ruleHndAgree},
-			{"PEEP-BOUND", 15, rulePeepBound},
+			{"PEEP-BOUND", 12, rulePeepBound},
 			{"PEEP-NEGZERO", 1, rulePeepNegZero},
 			{"PEEP-DEPTH", 1, rulePeepDepth},
 			{"PEEP-SPLIT", 20, rulePeepSplit},
